@@ -279,6 +279,20 @@ impl<const P: usize> Queryable for Sim<P> {
     }
     fn extension_custom(name: &str, args: Vec<Cow<Self>>) -> Self {
         seam(8);
+        if name == "reenter" {
+            // user code that calls back into the library from inside an evaluation: evaluates nested
+            // queries on its argument and answers whether their paths look like paths of distinct nodes
+            let Some(a) = args.first() else { return Sim::Bool(false) };
+            let a: &Sim<P> = a.as_ref();
+            let paths = a.query_only_path("$..*").unwrap_or_default();
+            let vals = a.query("$..*").map(|v| v.len()).unwrap_or(0);
+            let with: Vec<String> = a.query_with_path("$.*").map(|v| v.into_iter().map(|r| r.path()).collect()).unwrap_or_default();
+            let mut uniq = paths.clone();
+            uniq.sort();
+            uniq.dedup();
+            let ok = uniq.len() == paths.len() && paths.len() == vals && with.iter().all(|p| p.starts_with("$[")) && paths.iter().all(|p| p.starts_with("$["));
+            return Sim::Bool(paths.len() >= 2 && ok);
+        }
         // the five extension functions are Value's; a faithful view delegates to them
         let vals: Vec<Value> = args.iter().map(|a| a.as_ref().to_value()).collect();
         let cows: Vec<Cow<Value>> = vals.iter().map(Cow::Borrowed).collect();
